@@ -54,6 +54,14 @@ TENSOR_GLUE = [
     ("tensor/qtensor_func.py", "get_qtensor_func"),
     ("tensor/qtensor_func.py", "<module>"),
     ("tensor/qtype.py", "<module>"),
+    ("tensor/quantizers/symmetric.py", "<module>"),
+    ("tensor/quantizers/symmetric.py", "SymmetricQuantizer.forward"),
+    ("tensor/quantizers/affine.py", "<module>"),
+    ("tensor/quantizers/affine.py", "AffineQuantizer.forward"),
+    ("tensor/qweight.py", "<module>"),
+    ("tensor/qweight.py", "quantize_weight"),
+    ("tensor/qactivation.py", "<module>"),
+    ("tensor/qactivation.py", "quantize_activation"),
 ]
 KERNEL_GLUE = [
     ("library/ops.py", "<module>"),
@@ -116,7 +124,8 @@ TARGETS = {
     "C13": CALIB_GLUE,
     "C14": NUM_SKELETONS + QUANTIZER_SKELETONS + OPT_ABSTRACT,
     "C15": AWQ_GLUE,
-    "C16": NUM_SKELETONS + QUANTIZER_SKELETONS[:2],
+    "C16": NUM_SKELETONS + QUANTIZER_SKELETONS[:2] + [("tensor/qactivation.py", "<module>"), ("nn/qmodule.py", "<module>"), ("nn/qmodule.py", "QModuleMixin.forward"),
+            ("nn/qmodule.py", "QModuleMixin.qforward"), ("nn/qlinear.py", "<module>"), ("nn/qlinear.py", "QLinear.qforward")] + CALIB_GLUE,
 }
 
 
